@@ -139,11 +139,11 @@ theorem not_holds_of_acceptsLongKey (cfg : Cfg) (h : cfg.rejectsLongKey = false)
     whole file fails with `ErrEmptyKey`: every record of the swamp becomes unreadable -/
 theorem badEntry_poisons_file (cfg : Cfg) (codec : Codec) (crc : Checksum) (h : FileHeader) (name : Bytes)
     (before : List (List Entry)) (tail : Bytes) (e : Entry) (he : e = emptyKeyEntry ∨ e = longKeyEntry)
-    (hv : h.Valid) (h3 : h.version = 3) (hn : h.nameLength = name.length) (hg : ∀ b ∈ before, GoodBlock b) :
+    (hv : h.Valid) (hn : NameOk h name) (hg : ∀ b ∈ before, GoodBlock b) :
     loadIndex cfg codec.toDecoder crc
       (encodeFileHeader h ++ (name ++ (renderBlocks codec crc before ++ (encodeBlock codec crc [e] ++ tail))))
       = .error .emptyKey := by
-  apply loadIndex_poisoned cfg codec crc h name before [e] tail hv h3 hn hg
+  apply loadIndex_poisoned cfg codec crc h name before [e] tail hv hn hg
   have hsz : sizeSum [e] < 2 ^ 31 + 2 ^ 17 := by
     rcases he with h | h <;> subst h <;> simp [sizeSum, Entry.size, emptyKeyEntry, longKeyEntry, longKey_length]
   rw [readNextBlock_encodeBlock_gen cfg codec crc [e] tail (by simp) hsz]
